@@ -124,6 +124,34 @@ theorem C17_deepcopy_old_canonical (s : Section) (h : Canonical s) : rebuildSect
 theorem C17_canonical_prefix (tr : Bool) (l1 l2 : List Item) (h : Canonical ⟨l1 ++ l2, tr⟩) : Canonical ⟨l1, tr⟩ :=
   canonical_prefix tr l1 l2 h
 
+/-- `Canonical` holds for the empty section and is preserved by `append` and `insert` of ANY item (so it holds for
+every section the reader builds and after every history of additions); deletions break it
+(`C17_counterexample_deepcopy_old`: `staleSec` is three appends and one `pop`) -/
+theorem C17_canonical_empty (tr : Bool) : Canonical ⟨[], tr⟩ := by
+  intro t
+  unfold Section.assignSuffixes
+  simp [countGroup]
+
+theorem C17_canonical_append (s : Section) (it : Item) (h : Canonical s) : Canonical (s.append it) := by
+  obtain ⟨l, tr⟩ := s
+  have := canonical_insert_assign tr l [] it (by simpa using h)
+  unfold Section.append
+  simpa using this
+
+theorem C17_canonical_insert (s : Section) (i : Int) (it : Item) (h : Canonical s) : Canonical (s.insert i it) := by
+  obtain ⟨l, tr⟩ := s
+  unfold Section.insert insertAt
+  exact canonical_insert_assign tr _ _ it (by simpa using h)
+
+/-- a section built by appending items one after the other (what the reader does) is canonical, hence even the old
+`deepcopy` path reproduced it -/
+theorem C17_canonical_build (tr : Bool) (l : List Item) : Canonical (l.foldl Section.append ⟨[], tr⟩) := by
+  have : ∀ s : Section, Canonical s → Canonical (l.foldl Section.append s) := by
+    induction l with
+    | nil => exact fun s h => h
+    | cons a as ih => exact fun s h => ih _ (C17_canonical_append s a h)
+  exact this _ (C17_canonical_empty tr)
+
 /-! ### 4. non-vacuity -/
 
 def exDup : Section := Section.run ⟨[], true⟩
@@ -149,5 +177,9 @@ example :
 #print axioms C17_counterexample_deepcopy_old
 #print axioms C17_deepcopy_old_canonical
 #print axioms C17_canonical_prefix
+#print axioms C17_canonical_empty
+#print axioms C17_canonical_append
+#print axioms C17_canonical_insert
+#print axioms C17_canonical_build
 
 end Lasio
